@@ -174,6 +174,125 @@ def structural(P, abs_, native_for=None):
     return obs
 
 
+# ---------------------------------------------------------------- emit::Setup: all five components reach the slot
+
+SETUP_FNS = ["try_init_slot", "try_init_internal", "try_init"]
+COMPONENTS = ("emitter", "filter", "ctxt", "clock", "rng")
+
+
+SETUP_REPLAY = r'''use emit::{Clock, Ctxt, Emitter, Filter, Props, Rng};
+use std::sync::atomic::{AtomicUsize, Ordering};
+use std::time::Duration;
+
+static EMITTED: AtomicUsize = AtomicUsize::new(0);
+static FILTERED: AtomicUsize = AtomicUsize::new(0);
+
+struct E;
+impl Emitter for E {
+    fn emit<T: emit::event::ToEvent>(&self, _: T) { EMITTED.fetch_add(1, Ordering::SeqCst); }
+    fn blocking_flush(&self, _: Duration) -> bool { true }
+}
+struct F;
+impl Filter for F {
+    fn matches<T: emit::event::ToEvent>(&self, _: T) -> bool { FILTERED.fetch_add(1, Ordering::SeqCst); true }
+}
+struct C;
+impl Ctxt for C {
+    type Current = (&'static str, i32);
+    type Frame = ();
+    fn open_root<P: Props>(&self, _: P) -> Self::Frame {}
+    fn enter(&self, _: &mut Self::Frame) {}
+    fn with_current<R, G: FnOnce(&Self::Current) -> R>(&self, with: G) -> R { with(&("marker", 7)) }
+    fn exit(&self, _: &mut Self::Frame) {}
+    fn close(&self, _: Self::Frame) {}
+}
+struct K;
+impl Clock for K {
+    fn now(&self) -> Option<emit::Timestamp> { emit::Timestamp::from_unix(Duration::from_secs(77)) }
+}
+struct R;
+impl Rng for R {
+    fn fill<A: AsMut<[u8]>>(&self, mut arr: A) -> Option<A> { for b in arr.as_mut() { *b = 0xAB; } Some(arr) }
+}
+
+static SLOT: emit::runtime::AmbientSlot = emit::runtime::AmbientSlot::new();
+
+fn main() {
+    // C20: from the moment the slot is enabled, every thread sees ALL FIVE components of the winning configuration together
+    let setup = emit::setup().emit_to(%(w)sE%(e)s).emit_when(%(w)sF%(e)s).with_ctxt(%(w)sC%(e)s).with_clock(%(w)sK%(e)s).with_rng(%(w)sR%(e)s);
+    let init = %(init)s;
+    assert!(init.is_some(), "the first initialisation succeeds");
+    let rt = %(rt)s;
+    let mut missing = Vec::new();
+    emit::emit!(rt, "x");
+    if FILTERED.load(Ordering::SeqCst) != 1 { missing.push("filter"); }
+    if EMITTED.load(Ordering::SeqCst) != 1 { missing.push("emitter"); }
+    if rt.ctxt().with_current(|p| p.pull::<i32, _>("marker")) != Some(7) { missing.push("ctxt"); }
+    if rt.clock().now() != emit::Timestamp::from_unix(Duration::from_secs(77)) { missing.push("clock"); }
+    if rt.rng().gen_u64() != Some(0xABAB_ABAB_ABAB_ABAB) { missing.push("rng"); }
+    println!("components of the winning configuration not visible through the slot: {:?}", missing);
+    assert!(missing.is_empty(), "the slot is enabled but the winning configuration's {:?} is not what the slot shows", missing);
+}
+'''
+
+# (the internal runtime only takes components marked as internal: emit::runtime::AssertInternal)
+SETUP_ENTRY = {"try_init_slot": {"init": "setup.try_init_slot(&SLOT)", "rt": "SLOT.get()", "w": "", "e": ""},
+               "try_init_internal": {"init": "setup.try_init_internal()", "rt": "emit::runtime::internal()", "w": "emit::runtime::AssertInternal(", "e": ")"},
+               "try_init": {"init": "setup.try_init()", "rt": "emit::runtime::shared()", "w": "", "e": ""}}
+
+
+def setup_obligations(P, native_for=None):
+    """`emit::Setup::{try_init_slot, try_init_internal, try_init}` (the `init_*` forms call these): on every abstract path the runtime handed to
+    `AmbientSlot::init` was built by `Runtime::with_emitter/.with_filter/.with_ctxt/.with_clock/.with_rng`, each exactly once, all five
+    before the call ("every thread sees all five components of the winning configuration together")."""
+    obs = []
+    for m in SETUP_FNS:
+        try:
+            body = P.find_fn("Setup", m)
+        except Unsupported:
+            continue          # the entry point is behind a cargo feature that is off in this dump
+        A = cfgabs.Abstraction(P, body, name="Setup_" + m)
+        inits = A.calls(r"^Ambient(Internal)?Slot::init$")
+        deleg = A.calls(r"^Setup::try_init_slot$")
+        withs = {c: A.calls(r"^Runtime::with_%s$" % c) for c in COMPONENTS}
+        must, wit, false = [], [], []
+        if not inits and len(deleg) == 1:
+            # a thin wrapper: hands `self` to try_init_slot (decided above) and builds nothing itself
+            checks = [("%s: delegates to Setup::try_init_slot and builds no runtime of its own (%s)" % (m, [len(withs[c]) for c in COMPONENTS]),
+                       all(len(withs[c]) == 0 for c in COMPONENTS)),
+                      ("%s has a return" % m, len(A.returns) > 0)]
+            if all(ok for _, ok in checks):
+                d = deleg[0]
+                must = [("every_returning_path_went_through_try_init_slot", A, [_or([b_and(r.guard, b_not(d.guard)) for r in A.returns])])]
+                wit = [("path_reaches_try_init_slot", A, [d.guard])]
+                false = [("FALSE_no_path_reaches_try_init_slot", A, [d.guard])]
+        else:
+            checks = [("%s: exactly one AmbientSlot::init / AmbientInternalSlot::init call site (%d)" % (m, len(inits)), len(inits) == 1),
+                      ("%s has a return" % m, len(A.returns) > 0)]
+            if all(ok for _, ok in checks):
+                i = inits[0]
+                for c in COMPONENTS:
+                    must.append(("slot_initialised_only_after_with_%s" % c, A, [b_and(i.guard, b_not(A.some_before(i, withs[c])))]))
+                wit = [("path_reaches_init", A, [i.guard])]
+                false = [("FALSE_no_path_reaches_init", A, [i.guard])]
+        conc = None
+        if native_for is not None:
+            def conc(ctx, qname, cand, m=m):
+                from .cfg_driver import native_verdict
+                return native_verdict(ctx, "E2cfg_setup_%s_installs_all_five_components" % m, native_for(), SETUP_REPLAY % SETUP_ENTRY[m],
+                                      "", [], features=["std", "implicit_rt", "implicit_internal_rt"], default_features=False,
+                                      note="abstract counter-path for %s: the slot is initialised on a path that did not install every component; "
+                                           "replayed natively: five recognisable components through emit::Setup::%s, then each one read back through the slot"
+                                           % (qname, m))
+        obs.append(CfgObligation("E2cfg_setup_%s_installs_all_five_components" % m, [A], ["emit::setup::Setup::%s" % m],
+                                 "all abstract paths of the MIR of emit::Setup::%s (loop-free): Runtime::with_{emitter, filter, ctxt, clock, rng} all precede "
+                                 "AmbientSlot::init" % m, must, wit, false, static_checks=checks, concretise=conc,
+                                 fallback=(lambda ctx, problems, conc=conc: conc(ctx, "extractor", None)) if conc else None))
+    if not obs:
+        raise Unsupported("none of Setup::{%s} found in the MIR dump of emit" % ", ".join(SETUP_FNS))
+    return obs
+
+
 # ---------------------------------------------------------------- interleaving model
 
 class Interleaving:
